@@ -54,4 +54,20 @@ CHECKS['C02'] = {
 }
 WITNESS_PROPS = ['C01', 'C02', 'C18', 'C19']
 
+CHECKS['C03'] = {
+    'technique': 'static analysis: lock-region rules around App::update/view, type walk over every carrier of the Event parameter, direct-move provenance, unsafe-code scan, shared linear-resource rule',
+    'text': 'Static rule instances over HIR tables and MIR of the runtime crates: App::update only ever receives the model through a write guard of the core\'s model lock, with nothing else called and no re-entry into the core while the lock is held; every struct field carrying the Event parameter is a FIFO channel endpoint (or tabled) and events move from receive to update directly; no hand-written unsafe code exists beyond one tabled block; no event is dropped on a normal path. Necessary conditions on all paths; order between events of different tasks is not decided.',
+    'design_ref': 'DESIGN.md §4 C03',
+}
+CHECKS['C04'] = {
+    'technique': 'static analysis: exact-mapping rule on the CommandOutput matches of map_effect/map_event, await-dominance rule for then, every-sub-command-is-hosted rule with the shared linear-resource rule',
+    'text': 'Decides only the three clauses of C04 that are visible in the shape of the code: map_effect/map_event call the user function exactly once on their own kind and pass the other kind through untouched; then starts hosting its second command only on the Ready edge of awaiting the first; and/all/then/from_iter host every sub-command on the parent\'s own channels and drop none. Equivalence with the reference semantics, the algebraic laws and then_request/then_stream chaining under all resolution orders quantify over expressions x schedules and are explicitly NOT decided by this check.',
+    'design_ref': 'DESIGN.md §4 C04',
+}
+CHECKS['C05'] = {
+    'technique': 'static analysis: register-before-look and publish-before-wake dominance rules, a path-sensitive Pending-needs-a-waker rule over every hand-written poll function, lock-region rules on the legacy shell futures',
+    'text': 'Static rule instances over the MIR of crux_core and crux_time: Command::poll_next registers the host waker before running tasks or reading channels; every Wake impl enqueues the task (and stores woken) before waking the parent and does both on every path; in all 7 hand-written poll functions every path that returns Pending has kept the waker or follows a delegated Pending (one tabled, deliberate exception); the legacy futures check-and-register and deliver-and-wake under one lock. These are the necessary conditions for no wake-up being lost between layers; output equivalence across hosts is not decided.',
+    'design_ref': 'DESIGN.md §4 C05',
+}
+
 PENDING_REASON = 'check not yet armed in this framework (static rules designed in DESIGN.md §4; implementation in progress)'
